@@ -103,7 +103,13 @@ def runCase (j : Json) : Except String Json := do
     let files ← getFiles j
     let main ← (← j.getObjVal? "main").getStr?
     let sf : Spec.Files := fun p => (lookup files p).map specLines
-    return blocksJson (Spec.flattenInputs limit sf (Spec.resolveAgainst main.toList) (getNat j "depth" 64) main.toList)
+    let f := Spec.flatten limit sf (Spec.resolveAgainst main.toList) (getNat j "depth" 64) main.toList
+    let err := match Spec.errorOf f.outs with
+      | some .badRead => Json.str "badRead" | some .cycle => Json.str "cycle" | some .missing => Json.str "missing"
+      | none => Json.null
+    return Json.mkObj [("message", match f.message with | some m => strs m | none => Json.null),
+              ("title", match f.title with | some t => str t | none => Json.null),
+              ("inputs", Json.arr ((Spec.inputsOf f.outs).map inpJson).toArray), ("err", err)]
   | "render" =>
     let inputs ← (← j.getObjVal? "inputs").getArr?
     let inputs ← inputs.toList.mapM parseLayoutInput
